@@ -117,15 +117,15 @@ func genSamTag(t *rapid.T, name string) SamTag {
 	case "f":
 		tag.F = gen.F(gen.Floats().Draw(t, "f"))
 	case "Z":
-		tag.Z = samFieldAlpha.Bytes(0, 8).Draw(t, "Z")
+		tag.Z = samFieldAlpha.Field(8, 80, 2000).Draw(t, "Z")
 	case "H":
-		tag.H = gen.B(rapid.SliceOfN(rapid.Byte(), 0, 6).Draw(t, "H"))
+		tag.H = gen.B(rapid.SliceOfN(rapid.Byte(), 0, rapid.SampledFrom([]int{6, 6, 6, 200}).Draw(t, "hmax")).Draw(t, "H"))
 	}
 	return tag
 }
 
 func genSamRec(t *rapid.T) SamRec {
-	field := samFieldAlpha.Bytes(0, 10)
+	field := samFieldAlpha.Field(10, 100, 3000)
 	r := SamRec{
 		Qname: field.Draw(t, "qname"), Rname: field.Draw(t, "rname"), Cigar: field.Draw(t, "cigar"),
 		Rnext: field.Draw(t, "rnext"), Seq: field.Draw(t, "seq"), Qual: field.Draw(t, "qual"),
@@ -157,7 +157,7 @@ func genC03(t *rapid.T, thorough bool) C03Case {
 	c := C03Case{Kind: "file"}
 	nh := rapid.SampledFrom([]int{0, 0, 1, 2, 4}).Draw(t, "nheaders")
 	for i := 0; i < nh; i++ {
-		c.Headers = append(c.Headers, append(gen.B("@"), samHeaderAlpha.Bytes(0, 12).Draw(t, "header")...))
+		c.Headers = append(c.Headers, append(gen.B("@"), samHeaderAlpha.Field(12, 100, 3000).Draw(t, "header")...))
 	}
 	nr := rapid.SampledFrom([]int{0, 1, 1, 2, 3, 6}).Draw(t, "nrecs")
 	for i := 0; i < nr; i++ {
